@@ -192,6 +192,41 @@ def run(ctx):
         ctx.tag("rejected_then_reused")
         n_rej += 1
     ctx.extra["rejected_then_reused_histories"] = n_rej
+    # "a rule is applicable iff ... its config passes the algorithm's support check": the check in force when the rule is RESOLVED. Rules are
+    # added under the default policy, then a stricter policy is loaded (no weight-only, no 4-bit dynamic range), then everything is resolved
+    from .. import oracles as orc
+    from .. import fam_pipeline as fp_
+    n_pol = 0
+    for j in range(24 if ctx.tier == "quick" else 300):
+        if ctx.left() < 40:
+            break
+        adds = []
+        for _ in range(rng.randint(2, 5)):
+            a = fr.gen_add(rng, small=True)
+            if rng.random() < 0.6:   # rules for a NAMED operator under configs the stricter policy drops
+                a = dict(a, operation=rng.choice(["FULLY_CONNECTED", "CONV_2D", "EMBEDDING_LOOKUP"]), cfg=cfg_of[rng.choice(["wo8", "wo4a", "drq4", "drq8", "srq88"])],
+                         alg="min_max_uniform_quantize")
+            adds.append(a)
+        real = fr.RealRecipe()
+        routs = [real.step(a) for a in adds]
+        adds_ok = [(a["regex"], a["operation"], a["alg"], a["cfg"]) for a, r in zip(adds, routs) if r == "ok"]
+        try:
+            real.q.load_config_policy(orc.strict_policy_file())
+            for qy in fr.queries():
+                got = real.step(qy)
+                alg, cfg = fr.spec_resolve(adds_ok, qy["opname"], qy["scope"])   # the support check it calls is the one now in force
+                want = {"alg": alg, "cfg": fr.plain(fr.mk_cfg(cfg).to_dict())}
+                if json.dumps(want, sort_keys=True) != json.dumps(got, sort_keys=True):
+                    ctx.fail("after a stricter config-check policy was loaded, the resolved (algorithm, config) is not the last rule that passes "
+                             "the support check now in force", {"adds": adds, "policy": "default policy without weight-only and 4-bit dynamic range",
+                                                                "query": qy, "got": got, "want": want}, "resolve-after-policy-change")
+                    break
+        finally:
+            fp_.restore_policy({"policy": True})
+        ctx.case({"policy_change": [(a["regex"], a["operation"], a["alg"]) for a in adds]}, True)
+        ctx.tag("policy_changed_between_add_and_resolve")
+        n_pol += 1
+    ctx.extra["policy_change_histories"] = n_pol
     # sampled longer histories over the full alphabet
     n = 150 if ctx.tier == "quick" else 3000
     for i in range(n):
